@@ -193,7 +193,7 @@ fn faults(m: &Model, valid: &[u8], other_seed: &[u8], other_params: &[u8], half:
     f.push(("other-seed-buffer-marker-zeroed".into(), oz.clone(), true));
     oz.push(0x77);
     f.push(("other-seed-buffer-marker-zeroed-plus-one".into(), oz, true));
-    f.push(("same-seed-other-parameters-buffer".into(), other_params.to_vec(), false));
+    f.push(("same-seed-other-parameters-buffer".into(), other_params.to_vec(), true));
     // garbage
     let lens: Vec<usize> = if th && !big { (0..=valid.len() + 8).collect() } else { vec![0, 1, 2, 3, 4, 5, n, n + 3, n + 4, n + 5, valid.len() / 2, valid.len() - 1, valid.len(), valid.len() + 5] };
     for l in lens {
@@ -335,7 +335,7 @@ pub fn run_c10(ctx: &Ctx) -> (&'static str, Map<String, Value>) {
     }
     let (life_agg, life_labels) = crate::props_life::run_lattice(ctx, life);
     let total = total_cases.load(std::sync::atomic::Ordering::Relaxed);
-    ctx.assume("buffers with a valid MAC for the same seed but other parameters are executed (no panic required) but carry no verdict on equality: the statement promises seed binding only");
+    ctx.assume("a buffer written for the same seed under other parameters carries a valid MAC for this seed; the statement's first sentence ('whatever the buffer contains') still requires unchanged outputs -- the implementation (like hash-sigs) binds the MAC to the seed only, which is recorded as a known finding");
     ctx.assume("the statement does not require that a valid buffer IS used; only that outputs never change and that unauthenticated contents are never read back (decided by planting wrong non-zero nodes)");
     let mut m = Map::new();
     m.insert("evaluations".into(), json!(total));
